@@ -20,6 +20,9 @@ RULES = {
     'LINEAR-HOLD': 'each retain in update() is, on every normal path, stored into a metadata container, released, or '
                    'handed to a deferred computation',
     'NO-DOUBLE-REL': 'no token is released twice on one path without being re-acquired (count never negative)',
+    'EMIT-AFTER-REL': 'metadata is not emitted after this node has already released its hold on it on the same path: the '
+                      'completion callback could fire before downstream has even seen the element (and fires although a '
+                      'downstream failure follows)',
     'SCRATCH-SLOT': 'a slot that is only a scratch alias of a buffered entry (table SCRATCH_OVERWRITE: zip_latest.metadata[0], '
                     'released right after each emission) is never released through the "replace what the slot held" step: that '
                     'release is taken only when the arriving element does not belong to the slot\'s owner',
@@ -180,6 +183,25 @@ def check_class(ctx, R, cls, rules=None):
                         rep('LINEAR-HOLD', 'metadata', ok,
                             'retained, then neither stored nor released nor handed on, on the path [%s]' % conds,
                             evs[rets[0]].line, evs)
+            # ------------------------------------------------------------ EMIT-AFTER-REL
+            for i, e in enumerate(evs):
+                if e.kind != 'EM' or not e.b:
+                    continue
+                toks = {t for t in e.b if t == 'md' or t.startswith(('field:', 'take:'))}
+                for j in range(i):
+                    r_ = evs[j]
+                    if r_.kind == 'REL' and r_.b and isinstance(r_.x.get('arg'), ast.Name) and isinstance(e.x.get('md'), ast.Name) \
+                            and r_.x['arg'].id == e.x['md'].id and (toks & set(r_.b)) \
+                            and not any(x.kind == 'RET' and x.b and (set(x.b) & toks) for x in evs[j:i]) \
+                            and not any(x.kind == 'LADD' and x.a == r_.x['arg'].id for x in evs[j:i]) \
+                            and not any(x.kind == 'ITER' for x in evs[j:i]):       # (a new iteration re-binds the name)
+                        rep('EMIT-AFTER-REL', e.x['md'].id, False,
+                            '`%s` is released at line %d and emitted afterwards at line %d' % (e.x['md'].id, r_.line, e.line),
+                            e.line, evs)
+                        break
+                else:
+                    if isinstance(e.x.get('md'), ast.Name):
+                        rep('EMIT-AFTER-REL', e.x['md'].id, True)
             # ------------------------------------------------------------ SCRATCH-SLOT
             for i, e in enumerate(evs):
                 if e.kind != 'REL' or not isinstance(e.x.get('arg'), ast.Subscript):
